@@ -69,11 +69,8 @@ func vMatches(x *structs.Intention, src, srcPeer, dst string) bool {
 }
 
 func VerifC13_Decision() {
-	n := 3
-	if verifrt.Thorough() {
-		n = 4
-	}
-	vC13Decision(n, false)
+	// (4 intentions did not finish in 45 minutes; the thorough tier deepens the peered variant instead)
+	vC13Decision(3, false)
 }
 
 // the same with peered sources (one fewer intention)
